@@ -7,6 +7,7 @@ import (
 	_ "verif/harness/engines/authz"
 	_ "verif/harness/engines/cl"
 	_ "verif/harness/engines/classic"
+	_ "verif/harness/engines/determinism"
 	_ "verif/harness/engines/gauges"
 	_ "verif/harness/engines/lockup"
 	_ "verif/harness/engines/mint"
